@@ -40,7 +40,8 @@ check(
     'functools caches of the library cleared generically), also after a prologue overflowing the 10-entry table. Over the reachable '
     'graphs of shipped configurations every object reached through a history answers like a freshly built equal state; the '
     'functional observation is independent of earlier stateful use.',
-    'Sharing of instance-stateless objects (Floor, Wall, MovingObstacle) is not counted as aliasing.' + COMMON_NOTE,
+    'Every object with an instance dictionary counts as a mutable component (Floor and Wall included); sharing is also judged between a '
+    'produced state and ITS successor, and the step is compared with the in-place chain under the same random script.' + COMMON_NOTE,
     'DESIGN.md 3/C03, 8',
 )
 check(
